@@ -1813,7 +1813,14 @@ impl Node {
             for (_, slot) in channels.iter() {
                 let channel = slot.lock().unwrap();
                 match &*channel {
-                    ChannelSlot::Stub(_) => {}
+                    ChannelSlot::Stub(stub) => {
+                        // stubs are signer state too: a sub-persister that lost them
+                        // would restore a signer without these channels
+                        match self.persister.new_channel(&self.get_id(), stub) {
+                            Ok(()) | Err(crate::persist::Error::AlreadyExists(_)) => {}
+                            Err(_) => return Err(internal_error("sync persist failed")),
+                        }
+                    }
                     ChannelSlot::Ready(c) => {
                         self.persister
                             .update_channel(&self.get_id(), c)
